@@ -227,7 +227,10 @@ def run_entries(acc, block, nblocks, cfg):
             bad = same_dim[1]
             qargs[bad] = Q(base1[bad].copy() if base1[bad].ndim else float(base1[bad]), "second")
             acc.ev()
+            snap0 = {an: snap(q) for an, q in qargs.items()}
             o = call(lambda: fcall(getattr(qargs["self"], name), qargs) if kind == "method" else fcall(f_np, qargs))
+            if {an: snap(q) for an, q in qargs.items()} != snap0:
+                acc.violation(["input-integrity", name, "input-modified-by-a-refused-operation", "incompatible-unit"], {"function": name, "kind": kind, "entry": ei, "bad_argument": bad}, "inputs bit-identical", "changed")
             if name == "isin":
                 ok = o[0] == "ok"  # incompatible test elements are simply not in the array (documented)
             else:
@@ -238,7 +241,10 @@ def run_entries(acc, block, nblocks, cfg):
         if any(args[an][0] in ("D", "A") for an in argnames) and name not in ("isin", "power", "where"):
             qargs = {an: Q(base1[an].copy() if base1[an].ndim else float(base1[an]), "meter" if args[an][0] in ("D", "A") else R.BASE[args[an][0]]) for an in argnames}
             acc.ev()
+            snap0 = {an: snap(q) for an, q in qargs.items()}
             o = call(lambda: fcall(getattr(qargs["self"], name), qargs) if kind == "method" else fcall(f_np, qargs))
+            if {an: snap(q) for an, q in qargs.items()} != snap0:
+                acc.violation(["input-integrity", name, "input-modified-by-a-refused-operation", "dimensional-argument"], {"function": name, "kind": kind, "entry": ei}, "inputs bit-identical", "changed")
             if not (o[0] == "exc" and o[1] == "DimensionalityError"):
                 acc.violation(["errors", name, "dimensional-argument-accepted-where-dimensionless-or-angle-is-required", ""], {"function": name, "kind": kind, "entry": ei}, "DimensionalityError", repr(o)[:200])
             acc.outcome("error-clause")
@@ -247,10 +253,22 @@ def run_entries(acc, block, nblocks, cfg):
             qargs = {an: Q(base1[an].copy() if base1[an].ndim else float(base1[an]), R.BASE[args[an][0]]) for an in argnames}
             qargs[first] = Q(base1[first].copy() if base1[first].ndim else float(base1[first]), "degC")
             acc.ev()
+            snap0 = {an: snap(q) for an, q in qargs.items()}
             o = call(lambda: fcall(getattr(qargs["self"], name), qargs) if kind == "method" else fcall(f_np, qargs))
+            if o[0] == "exc" and {an: snap(q) for an, q in qargs.items()} != snap0:
+                acc.violation(["input-integrity", name, "input-modified-by-a-refused-operation", "offset-unit"], {"function": name, "kind": kind, "entry": ei}, "inputs bit-identical", "changed")
             if not (o[0] == "exc" and o[1] == "OffsetUnitCalculusError"):
                 acc.violation(["errors", name, "offset-unit-in-a-multiplicative-operation-not-refused", ""], {"function": name, "kind": kind, "entry": ei}, "OffsetUnitCalculusError", repr(o)[:200])
             acc.outcome("error-clause")
+        # any entry, first argument in an offset unit: accepted or refused, but a refusal must not have touched the data
+        if cfg == "default":
+            qargs = {an: Q(base1[an].copy() if base1[an].ndim else float(base1[an]), R.BASE[args[an][0]]) for an in argnames}
+            qargs[argnames[0]] = Q(base1[argnames[0]].copy() if base1[argnames[0]].ndim else float(base1[argnames[0]]), "degC")
+            snap0 = {an: snap(q) for an, q in qargs.items()}
+            acc.ev()
+            o = call(lambda: fcall(getattr(qargs["self"], name), qargs) if kind == "method" else fcall(f_np, qargs))
+            if o[0] == "exc" and {an: snap(q) for an, q in qargs.items()} != snap0:
+                acc.violation(["input-integrity", name, "input-modified-by-a-refused-operation", "offset-first-argument"], {"function": name, "kind": kind, "entry": ei, "error": o[1]}, "inputs bit-identical", "changed")
     for n in covered:
         acc.add("covered", n)
     acc.sample({"clause": "reference+unit-covariance", "function": "hypot", "spellings": {"x": "centimeter", "y": "kilometer"}, "values": {"x": R.VALUES["v1"], "y": R.VALUES["v2"]}, "implied_unit": "meter"})
@@ -412,7 +430,7 @@ MANIFEST = {
     "functions, multi-array functions, interp/clip/isclose/pad/isin/searchsorted with their optional arguments, wrapped ndarray methods) is executed for EVERY assignment of spellings {m,cm,km}/{s,ms}/{'',%}/"
     "{rad,deg} to the unit-carrying arguments (up to 27 per entry) and, for ufuncs, 0-d/1-d/2-d shapes. Each result must carry the implied unit and equal NumPy applied to the base-unit magnitudes — which "
     "makes it independent of the spelling —, bare results must be bare, inputs must be bit-identical afterwards. Per entry: an incompatible unit in a unit-sharing slot and a dimensional argument in a "
-    "dimensionless/angle slot must raise DimensionalityError, an offset-unit argument of a multiplicative operation OffsetUnitCalculusError. Products under where= masks (uniform, per-axis and ragged selections; ragged only for dimensionless input). Bare tolerances of isclose/allclose are passed as plain numbers spelled like `a` (they are documented to be read in the units of `a`) for every spelling of a and b. 12 explicitly in-place operations must change exactly their target. "
+    "dimensionless/angle slot must raise DimensionalityError, an offset-unit argument of a multiplicative operation OffsetUnitCalculusError. Products under where= masks (uniform, per-axis and ragged selections; ragged only for dimensionless input). Bare tolerances of isclose/allclose are passed as plain numbers spelled like `a` (they are documented to be read in the units of `a`) for every spelling of a and b. A refused call (incompatible unit, dimensional argument, offset unit — and every entry called with an offset-unit first argument) must leave its inputs bit-identical. 12 explicitly in-place operations must change exactly their target. "
     "thorough repeats the table under force_ndarray and force_ndarray_like. The evidence lists handled names not covered by the table.",
     "note": "Trusted: NumPy, the role table (refdata/numpy_roles.py). Rounding-like operations are compared with NumPy on the magnitudes as given (not covariant by nature). Random arrays, ranks above 2, masked "
     "arrays and duck arrays other than ndarray are outside.",
